@@ -562,10 +562,17 @@ func (i *Iterator[T]) ProcessParallel(
 		wg := &WaitGroup{}
 
 		operation := fn.WithRecover().WithErrorFilter(func(err error) error {
-			return ft.WhenDo(
-				!opts.CanContinueOnError(err),
-				ft.Wrapper(io.EOF),
-			)
+			if opts.CanContinueOnError(err) {
+				return nil
+			}
+			// abort: stop this worker (io.EOF ends its ReadAll
+			// loop) and cancel the group so that the other
+			// workers stop picking up new items. (ReadAll
+			// reports io.EOF as nil, so the observer below
+			// cannot tell an aborting worker from the end of
+			// the input.)
+			cancel()
+			return io.EOF
 		})
 
 		splits := i.Split(opts.NumWorkers)
